@@ -132,20 +132,22 @@ def trim (s : Bytes) : Bytes :=
   let a := trimStartFuel s.length s
   (trimEndRevFuel a.length a.reverse).reverse
 
+def wsFlush (cur : Bytes) (acc : List Bytes) : List Bytes :=
+  if cur.isEmpty then acc else cur.reverse :: acc
+
+/-- scanner of `split_whitespace`: `skip` = bytes of the current white-space character still to
+    pass, `cur` = current word reversed, `acc` = finished words reversed -/
+def wsGo (skip : Nat) (cur : Bytes) (acc : List Bytes) : Bytes → List Bytes
+  | [] => (wsFlush cur acc).reverse
+  | b :: rest =>
+    match skip with
+    | k + 1 => wsGo k cur acc rest
+    | 0 =>
+      if wsLen (b :: rest) = 0 then wsGo 0 (b :: cur) acc rest
+      else wsGo (wsLen (b :: rest) - 1) [] (wsFlush cur acc) rest
+
 /-- `str::split_whitespace` -/
-def splitWhitespace (s : Bytes) : List Bytes :=
-  let flush (cur : Bytes) (acc : List Bytes) : List Bytes :=
-    if cur.isEmpty then acc else cur.reverse :: acc
-  let rec go (skip : Nat) (cur : Bytes) (acc : List Bytes) : Bytes → List Bytes
-    | [] => (flush cur acc).reverse
-    | b :: rest =>
-      match skip with
-      | k + 1 => go k cur acc rest
-      | 0 =>
-        let w := wsLen (b :: rest)
-        if w = 0 then go 0 (b :: cur) acc rest
-        else go (w - 1) [] (flush cur acc) rest
-  go 0 [] [] s
+def splitWhitespace (s : Bytes) : List Bytes := wsGo 0 [] [] s
 
 /-! ## integers -/
 
